@@ -8,6 +8,7 @@ from symex import eqlshapes as S
 from symex.eqlshapes import Item, an, a, entity, let, symbolic_mode
 
 ASSUMPTIONS = [
+    "shapes with again=k iterate the SAME query object k more times; the obligations are then stated on the last result",
     "domain objects are distinct instances of an eq=False @symbol dataclass; attribute values are unbounded "
     "integers, booleans, pairs/lists/dicts of integers",
     "condition trees are enumerated up to the stated number of leaves; beyond it sampled by VERIF_SEED",
@@ -49,6 +50,8 @@ class C01(Case):
                 else:
                     raise ValueError(spelling)
             res = list(q.evaluate())
+            for _ in range(sp.get("again", 0)):
+                res = list(q.evaluate())      # the same query object evaluated again: the obligations are stated on the LAST result
         except Exception as e:
             return items, ["exc", type(e).__name__, str(e)[:200]]
         idx = []
@@ -123,6 +126,21 @@ def shapes(tier, seed):
         out.append(dict(cond=["or", ["and", a_, b_], ["and", c_, d_]]))
         out.append(dict(cond=["not", ["or", ["and", a_, b_], ["and", c_, d_]]]))
         out.append(dict(cond=["and", ["or", a_, b_], ["or", c_, d_]], spelling="multi"))
+    # the same query object iterated again (and a third time): chains of three, negated chains, nested operators
+    trips = [(core[0], core[1], core[2]), (core[1], core[3], core[0]), (core[3], core[4], core[5]), (core[6], core[7], core[1]),
+             (core[2], core[0], core[3])]
+    for (a_, b_, c_) in trips:
+        for again in (1, 2):
+            out.append(dict(cond=["or", a_, b_, c_], again=again))
+            out.append(dict(cond=["not", ["and", a_, b_, c_]], again=again))
+            out.append(dict(cond=["and", a_, b_, c_], again=again))
+            out.append(dict(cond=["or", ["and", a_, b_], c_], again=again))
+            out.append(dict(cond=["and", ["or", a_, b_], ["not", c_]], again=again))
+            out.append(dict(cond=["or", a_, ["or", b_, c_]], again=again))
+    for l1 in core[:4]:
+        for l2 in core[:4]:
+            out.append(dict(cond=["or", l1, l2], again=1))
+            out.append(dict(cond=["not", ["or", l1, l2]], again=1))
     rnd = random.Random(seed)
     if tier == "quick":
         # covering sample of L = 3
